@@ -155,7 +155,29 @@ def c12_shapes(fam, tier):
             out.append((m, st, (0, 2)[(i + 1) % 2], (i * 5 + 2) % 6, 0))
         return out
 
+def c09_shapes(tier):
+    # (metric, strategy, history, second rule metric + 1)
+    if tier == 'quick':
+        return [(0, 0, 2, 0), (0, 1, 2, 0), (4, 0, 1, 0), (4, 1, 2, 0), (1, 0, 2, 0), (2, 0, 2, 0), (3, 0, 2, 0), (2, 0, 1, 4), (0, 1, 1, 3)]
+    out = []
+    for m in range(5):
+        for st in ((0, 1) if m in (0, 4) else (0,)):
+            out.append((m, st, 3, 0))
+    out += [(2, 0, 2, 4), (0, 1, 2, 3), (4, 1, 2, 2), (1, 0, 2, 5), (3, 1, 2, 1)]
+    return out
+
 PROPS = {
+    'C09': {
+        'level': 'model_checking',
+        'bounds': 'all five metric types x both strategies, 1-2 rules; thresholds symbolic in quarters in [0,4] (CPU: [0,100]); injected load in quarters in [0,1], CPU in {0,25,50,75,100}; '
+                  'inbound history of 1-2 (quick) / 2-3 (thorough) entries with symbolic gaps in [0,600] ms, each completed after 10/100/250 ms or left open; probe inbound or outbound after a gap in [0,600] ms',
+        'assumptions': ['load/CPU readings injected through the verif_set_readings hook', 'chain of the real prepare, system and resource-statistic slots plus an observer slot',
+                        'observed values recomputed from a ledger with the window function of the default metric (two 500 ms buckets)'],
+        'scenarios': [
+            {'name': 'c09_system', 'shapes': {'quick': c09_shapes('quick'), 'thorough': c09_shapes('thorough')},
+             'witnesses': ['admitted', 'rejected'], 'selftest': {'quick': 10, 'thorough': 60}},
+        ],
+    },
     'C12': {
         'level': 'model_checking',
         'bounds': 'one rule per run; enum-valued fields of all five families as shapes (thorough: the full cross product, quick: a covering sample): flow calculate x control x relation '
